@@ -6,7 +6,7 @@
 # Each patch is applied at the `head` recorded in its result.json (else at /repo's HEAD).
 set -u
 export GOFLAGS=-mod=mod GOPROXY=off GOSUMDB=off GOTOOLCHAIN=local
-MUST_BREAK="C06-b2 C18-b2 C18-c1 C05-c2 C09-b2 C11-b2 C14-c2 C18-2 C18-b1 C18-c2"
+MUST_BREAK="C06-b2 C18-b2 C18-c1 C05-c2 C09-b2 C11-b2 C14-c2 C18-2 C18-b1 C18-c2 C18-f2"
 # repairs that rewrote a generation-guarded memo test and are harmless for C18
 QUIET_COMMITS="673b372"
 T=/tmp/c18state.$$; mkdir -p $T; trap "rm -rf $T" EXIT
